@@ -54,7 +54,7 @@ func (c09Prop) Assumptions() []string {
 	return []string{
 		"per-record expected encodings come from the library's own codec (SchemaForType -> Schema.Codec -> Codec.Write): the property is about framing relative to 'the encodings', so what a value encodes to is not judged here",
 		"independent decompressors (compress/flate, snappy+CRC32 called directly) recover each block's payload",
-		"early emission (a block written before the block size is reached) is not forbidden by the statement and is not flagged",
+		"a block emitted by Encode (not by Flush) must hold at least the configured block size of encodings (NewEncoderFor documents 'blocks of at least approxBlockSize bytes'); a block emitted by Flush may be of any size",
 	}
 }
 
@@ -213,6 +213,7 @@ func (c09Prop) Execute(p *Plan, run *Run) any {
 	inBlocks := 0 // records seen in emitted blocks
 	pendingBytes := 0
 	blocks := 0
+	lastBlockBytes, lastBlockCount := 0, 0
 
 	fail := func(class, site, msg string, at int) {
 		q := p.clone()
@@ -262,6 +263,7 @@ func (c09Prop) Execute(p *Plan, run *Run) any {
 				return emitted, false
 			}
 			inBlocks += int(count)
+			lastBlockBytes, lastBlockCount = len(payload), int(count)
 			blocks++
 			emitted++
 			parsed = dec.Pos + int(size) + 16
@@ -389,6 +391,15 @@ func (c09Prop) Execute(p *Plan, run *Run) any {
 			}
 			if emitted > 0 {
 				run.Probes.Inc("size-triggered-flush")
+				// NewEncoderFor documents "blocks of at least approxBlockSize
+				// bytes. A block is written when it reaches that size, or when
+				// Flush is called": a block emitted by Encode before the
+				// buffered encodings reached the block size follows neither
+				// trigger the property names.
+				if lastBlockBytes < pl.BlockSize {
+					fail("c09/early-block", what, fmt.Sprintf("op %d: Encode emitted a block of %d records and %d payload bytes although the block size is %d and Flush was not called", opi, lastBlockCount, lastBlockBytes, pl.BlockSize), opi)
+					return nil
+				}
 			}
 			if width == "zero" && emitted > 0 {
 				run.Probes.Inc("zero-width-records-in-block")
